@@ -1,5 +1,415 @@
-"""thorough tier additions (self-validation corpus) -- filled in later"""
+"""Self-validation of the checker on the *current* source, both ways:
+
+* silent twins   -- behaviour-preserving rewrites of the whole package computed
+                    from the current tree (re-printing, renaming every local
+                    variable, bare raise -> raise e, edited messages, a no-op
+                    statement at the start of every function): every rule must
+                    return the same verdicts as on the tree the twin was
+                    derived from;
+* firing mutants -- one instance broken by a small edit (sa/mutants.py): the
+                    property's check must report a violation.
+
+Variants are built in memory (Program(sources)); nothing is written to disk.
+A mutant whose anchor text is no longer present is a *stale witness*, not a
+failure.  Used by the thorough tier and by `python -m sa.selftest`.
+"""
+import ast
+import copy
+import os
+import sys
+import time
+import multiprocessing
+
+from .program import Program, AnalysisError, read_sources
 
 
-def thorough_extra(program, pid, ctx):
-    return {}, []
+# ---------------------------------------------------------------------------
+# twins
+
+def _unparse_all(sources, transform=None):
+    out = {}
+    for path, src in sources.items():
+        tree = ast.parse(src)
+        if transform is not None:
+            tree = transform(path, tree) or tree
+        ast.fix_missing_locations(tree)
+        out[path] = ast.unparse(tree) + '\n'
+    return out
+
+
+class _Scope:
+    def __init__(self, node, parent):
+        self.node = node
+        self.parent = parent
+        self.children = []
+        self.params = set()
+        self.locals = set()
+        self.uses = set()
+
+    def walk(self):
+        yield self
+        for c in self.children:
+            yield from c.walk()
+
+
+def _build_scopes(func, parent=None):
+    sc = _Scope(func, parent)
+    a = func.args
+    for x in a.posonlyargs + a.args + a.kwonlyargs:
+        sc.params.add(x.arg)
+    if a.vararg:
+        sc.params.add(a.vararg.arg)
+    if a.kwarg:
+        sc.params.add(a.kwarg.arg)
+    body = func.body if isinstance(func.body, list) else [func.body]
+    stack = list(body)
+    # defaults/decorators belong to the enclosing scope
+    while stack:
+        n = stack.pop()
+        if isinstance(n, (ast.FunctionDef, ast.AsyncFunctionDef, ast.Lambda)):
+            if isinstance(n, (ast.FunctionDef, ast.AsyncFunctionDef)):
+                sc.locals.add(n.name)
+            sc.children.append(_build_scopes(n, sc))
+            for d in n.args.defaults + [k for k in n.args.kw_defaults if k is not None]:
+                stack.append(d)
+            continue
+        if isinstance(n, ast.ClassDef):
+            sc.locals.add(n.name)
+            continue          # class bodies are left alone
+        if isinstance(n, ast.Name):
+            if isinstance(n.ctx, (ast.Store, ast.Del)):
+                sc.locals.add(n.id)
+            sc.uses.add(n.id)
+        elif isinstance(n, ast.ExceptHandler) and n.name:
+            sc.locals.add(n.name)
+        elif isinstance(n, (ast.Import, ast.ImportFrom)):
+            for al in n.names:
+                sc.locals.add((al.asname or al.name).split('.')[0])
+        elif isinstance(n, (ast.Global, ast.Nonlocal)):
+            sc.params.update(n.names)      # never rename
+        stack.extend(ast.iter_child_nodes(n))
+    return sc
+
+
+class _Renamer(ast.NodeTransformer):
+    """rename local variables (not parameters) of every function; a nested
+    function sees the renamed name unless it rebinds the name itself"""
+
+    def __init__(self, suffix='_rn'):
+        self.suffix = suffix
+        self.maps = [{}]
+
+    def _enter(self, func):
+        sc = _build_scopes(func)
+        inherited = dict(self.maps[-1])
+        own = (sc.locals - sc.params)
+        # names rebound by a nested scope as parameter are shadowed there, handled on entry of that scope
+        for n in sc.params | own:
+            inherited.pop(n, None)
+        # a class nested in the function is left alone: names it uses keep their spelling
+        used_in_classes = set()
+        body = func.body if isinstance(func.body, list) else [func.body]
+        for b in body:
+            for x in ast.walk(b):
+                if isinstance(x, ast.ClassDef):
+                    for y in ast.walk(x):
+                        if isinstance(y, ast.Name):
+                            used_in_classes.add(y.id)
+        for n in own:
+            if n.startswith('__') or n in used_in_classes:
+                continue
+            inherited[n] = n + self.suffix
+        return inherited
+
+    def visit_FunctionDef(self, node):
+        # decorators / defaults in the outer mapping
+        node.decorator_list = [self.visit(d) for d in node.decorator_list]
+        node.args.defaults = [self.visit(d) for d in node.args.defaults]
+        node.args.kw_defaults = [self.visit(d) if d is not None else None for d in node.args.kw_defaults]
+        if node.name in self.maps[-1]:
+            node.name = self.maps[-1][node.name]
+        self.maps.append(self._enter(node))
+        node.body = [self.visit(s) for s in node.body]
+        self.maps.pop()
+        return node
+
+    visit_AsyncFunctionDef = visit_FunctionDef
+
+    def visit_Lambda(self, node):
+        node.args.defaults = [self.visit(d) for d in node.args.defaults]
+        self.maps.append(self._enter(node))
+        node.body = self.visit(node.body)
+        self.maps.pop()
+        return node
+
+    def visit_ClassDef(self, node):
+        # methods of a class start a fresh mapping
+        self.maps.append({})
+        node.body = [self.visit(s) for s in node.body]
+        self.maps.pop()
+        return node
+
+    def visit_Name(self, node):
+        m = self.maps[-1]
+        if node.id in m:
+            node.id = m[node.id]
+        return node
+
+    def visit_ExceptHandler(self, node):
+        if node.name and node.name in self.maps[-1]:
+            node.name = self.maps[-1][node.name]
+        self.generic_visit(node)
+        return node
+
+
+def twin_unparse(sources):
+    return _unparse_all(sources)
+
+
+def twin_rename(sources):
+    return _unparse_all(sources, lambda path, tree: _Renamer().visit(tree))
+
+
+class _RaiseE(ast.NodeTransformer):
+    def visit_ExceptHandler(self, node):
+        self.generic_visit(node)
+        name = node.name
+
+        class R(ast.NodeTransformer):
+            def visit_Raise(s, r):
+                if r.exc is None and r.cause is None and name:
+                    return ast.Raise(exc=ast.Name(id=name, ctx=ast.Load()), cause=None)
+                return r
+
+            def visit_ExceptHandler(s, h):
+                return h       # inner handlers re-raise their own exception
+
+            def visit_FunctionDef(s, f):
+                return f
+
+            def visit_Lambda(s, f):
+                return f
+        if name:
+            node.body = [R().visit(b) for b in node.body]
+        return node
+
+
+def twin_raise_e(sources):
+    return _unparse_all(sources, lambda path, tree: _RaiseE().visit(tree))
+
+
+class _Messages(ast.NodeTransformer):
+    def visit_Raise(self, node):
+        exc = node.exc
+        if isinstance(exc, ast.Call) and exc.args and isinstance(exc.args[0], ast.Constant) \
+                and isinstance(exc.args[0].value, str) and len(exc.args[0].value) > 12:
+            exc.args[0] = ast.Constant(value=exc.args[0].value + ' [reworded]')
+        return node
+
+
+def twin_messages(sources):
+    return _unparse_all(sources, lambda path, tree: _Messages().visit(tree))
+
+
+class _Noop(ast.NodeTransformer):
+    def visit_FunctionDef(self, node):
+        self.generic_visit(node)
+        stmt = ast.Assign(targets=[ast.Name(id='_trace_on', ctx=ast.Store())], value=ast.Constant(value=False), lineno=node.lineno)
+        i = 0
+        if node.body and isinstance(node.body[0], ast.Expr) and isinstance(node.body[0].value, ast.Constant) \
+                and isinstance(node.body[0].value.value, str):
+            i = 1
+        node.body.insert(i, stmt)
+        return node
+
+
+def twin_noop(sources):
+    return _unparse_all(sources, lambda path, tree: _Noop().visit(tree))
+
+
+TWINS = {
+    'reprint': twin_unparse,
+    'rename-locals': twin_rename,
+    'raise-e': twin_raise_e,
+    'messages': twin_messages,
+    'noop-stmt': twin_noop,
+}
+
+
+# ---------------------------------------------------------------------------
+
+def run_property(sources, pid):
+    """-> (set of (rule, qual) violated, list of errors, n obligations)"""
+    from .framework import run_rules
+    try:
+        program = Program(sources)
+        ctx, errors = run_rules(program, pid, 'quick')
+    except AnalysisError as e:
+        return set(), [str(e)], 0
+    viol = {(o.rule, o.qual) for o in ctx.obs if o.verdict == 'violation'}
+    return viol, errors, len(ctx.obs)
+
+
+def _twin_job(args):
+    kind, pid, sources = args
+    try:
+        tw = TWINS[kind](sources)
+    except Exception as e:
+        return kind, pid, None, ['twin generation failed: %s: %s' % (type(e).__name__, e)], 0
+    v, e, n = run_property(tw, pid)
+    return kind, pid, sorted(v), e, n
+
+
+def _mutant_job(args):
+    mid, pid, sources = args
+    v, e, n = run_property(sources, pid)
+    return mid, pid, sorted(v), e, n
+
+
+def apply_mutant(sources, m):
+    """returns new sources or None when the anchor text is not present exactly
+    once (stale witness)"""
+    path = m['file']
+    src = sources.get(path)
+    if src is None:
+        return None
+    if src.count(m['old']) != 1:
+        return None
+    out = dict(sources)
+    out[path] = src.replace(m['old'], m['new'], 1)
+    try:
+        ast.parse(out[path])
+    except SyntaxError:
+        return None
+    return out
+
+
+def mutants_for(pid):
+    from .mutants import MUTANTS
+    return [m for m in MUTANTS if pid in m['props']]
+
+
+def thorough_extra(program, pid, ctx, jobs=None):
+    """run the corpus for one property; returns (extra coverage dict, errors)"""
+    from .framework import KNOWN_FILE
+    sources = program.sources
+    base_viol = {(o.rule, o.qual) for o in ctx.obs if o.verdict in ('violation', 'known')}
+    errors = []
+    jobs = jobs or min(16, os.cpu_count() or 4)
+    twin_args = [(k, pid, sources) for k in TWINS]
+    ms = mutants_for(pid)
+    mut_args = []
+    stale = []
+    for m in ms:
+        s2 = apply_mutant(sources, m)
+        if s2 is None:
+            stale.append(m['id'])
+        else:
+            mut_args.append((m['id'], pid, s2))
+    t0 = time.time()
+    with multiprocessing.Pool(jobs) as pool:
+        twin_res = pool.map(_twin_job, twin_args)
+        mut_res = pool.map(_mutant_job, mut_args)
+    twins_report = []
+    for kind, _, v, e, n in twin_res:
+        if v is None:
+            errors.append('silent twin %s: %s' % (kind, '; '.join(e)))
+            continue
+        new = set(map(tuple, v)) - base_viol
+        lost = base_viol - set(map(tuple, v))
+        status = 'same verdicts'
+        if new or lost or e:
+            status = 'DIFFERS'
+            errors.append('silent twin %s changes the verdicts of %s: new=%s lost=%s errors=%s'
+                          % (kind, pid, sorted(new)[:3], sorted(lost)[:3], e[:2]))
+        twins_report.append({'twin': kind, 'obligations': n, 'status': status})
+    fired = []
+    missed = []
+    byid = {m['id']: m for m in ms}
+    for mid, _, v, e, n in mut_res:
+        new = set(map(tuple, v)) - base_viol
+        if new:
+            fired.append({'mutant': mid, 'what': byid[mid]['what'], 'reported_by': sorted({r for r, _ in new})})
+        else:
+            missed.append(mid)
+            if not base_viol:
+                errors.append('firing variant %s (%s) is not reported by %s%s'
+                              % (mid, byid[mid]['what'], pid, (' [errors: %s]' % e[:1]) if e else ''))
+    extra = {
+        'selfvalidation': {
+            'silent_twins': twins_report,
+            'firing_variants_run': len(mut_res),
+            'firing_variants_reported': len(fired),
+            'firing_variants_stale': stale,
+            'firing_variants_missed': missed,
+            'fired_samples': fired[:12],
+            'wall_s': round(time.time() - t0, 2),
+        },
+        'programs': 1 + len(twin_res) + len(mut_res),
+    }
+    return extra, errors
+
+
+def main(argv=None):
+    import argparse
+    from .rules import PROPERTIES
+    ap = argparse.ArgumentParser(prog='sa.selftest')
+    ap.add_argument('what', choices=['twins', 'mutants', 'all'])
+    ap.add_argument('--pid', action='append')
+    ap.add_argument('--twin', action='append')
+    ap.add_argument('--jobs', type=int, default=min(16, os.cpu_count() or 4))
+    ap.add_argument('-v', action='store_true')
+    args = ap.parse_args(argv)
+    pids = args.pid or PROPERTIES
+    sources = read_sources()
+    rc = 0
+    with multiprocessing.Pool(args.jobs) as pool:
+        base = {}
+        for pid, (v, e, n) in zip(pids, pool.starmap(run_property, [(sources, p) for p in pids])):
+            base[pid] = (v, e, n)
+            if e:
+                print('BASE %s errors: %s' % (pid, e))
+        if args.what in ('twins', 'all'):
+            kinds = args.twin or list(TWINS)
+            res = pool.map(_twin_job, [(k, p, sources) for k in kinds for p in pids])
+            for kind, pid, v, e, n in res:
+                bv = base[pid][0]
+                vv = set(map(tuple, v or []))
+                if v is None or vv != bv or e:
+                    rc = 1
+                    print('TWIN %-14s %s DIFFERS: new=%s lost=%s n=%d (base %d)' % (kind, pid, sorted(vv - bv), sorted(bv - vv), n, base[pid][2]))
+                    for x in e:
+                        print('      error: %s' % x)
+                elif args.v:
+                    print('twin %-14s %s same (%d obligations, base %d)' % (kind, pid, n, base[pid][2]))
+        if args.what in ('mutants', 'all'):
+            from .mutants import MUTANTS
+            jobs = []
+            for m in MUTANTS:
+                for pid in m['props']:
+                    if pid not in pids:
+                        continue
+                    s2 = apply_mutant(sources, m)
+                    if s2 is None:
+                        print('STALE  %s (%s): anchor text not found exactly once' % (m['id'], pid))
+                        rc = 1
+                        continue
+                    jobs.append((m['id'], pid, s2))
+            res = pool.map(_mutant_job, jobs)
+            byid = {m['id']: m for m in MUTANTS}
+            nf = 0
+            for mid, pid, v, e, n in res:
+                new = set(map(tuple, v)) - base[pid][0]
+                if new:
+                    nf += 1
+                    if args.v:
+                        print('fired  %-28s %s by %s' % (mid, pid, sorted({r for r, _ in new})))
+                else:
+                    rc = 1
+                    print('MISSED %-28s %s  (%s) %s' % (mid, pid, byid[mid]['what'], e[:1] if e else ''))
+            print('%d mutant runs, %d fired' % (len(res), nf))
+    return rc
+
+
+if __name__ == '__main__':
+    sys.exit(main())
